@@ -696,8 +696,10 @@ Please resolve this error in order to continue running the pipeline:`)
 		}
 		// Remove all related files from journal directory.
 		if files, err := util.Readdirnames(self.top.journalPath); err == nil {
+			// The separator is part of the prefix, so that for example
+			// ALIGN does not match the files of ALIGN_STATS.
 			base := strings.TrimPrefix(strings.TrimPrefix(self.call.GetFqid(),
-				self.top.fqname), ".")
+				self.top.fqname), ".") + "."
 			for _, file := range files {
 				if strings.HasPrefix(file, base) {
 					os.Remove(path.Join(self.top.journalPath, file))
